@@ -94,7 +94,12 @@ fn dedent(width: usize, items: &mut PrintItems) {
 }
 
 fn space_before_comment(cst: &Cst<'_>, span: &Span, items: &mut PrintItems, global: bool) {
-    for c in cst.source()[..span.start].bytes().rev() {
+    let before = &cst.source()[..span.start];
+    // directly after an opener the construct itself decides between space and newline + indent
+    if !global && before.trim_end().ends_with([':', '(', '[']) {
+        return;
+    }
+    for c in before.bytes().rev() {
         match c {
             b' ' | b'\t' | b'\r' => {}
             b'\n' => {
